@@ -5,6 +5,7 @@ import xml.etree.ElementTree as ET
 env = dict(os.environ)
 env.pop('SKGSTAT_VERIF', None)
 repo = sys.argv[1] if len(sys.argv) > 1 else '/repo'
+env['PYTHONPATH'] = repo
 base = json.load(open('/root/.vp/BASELINE.json'))
 with tempfile.TemporaryDirectory() as td:
     xml = os.path.join(td, 'r.xml')
